@@ -3,6 +3,7 @@
   Every theorem quantifies over all valid receivers and ALL representable operands (whole i32 / i64).
 -/
 import SqlDt.Lemmas.Div
+import SqlDt.Lemmas.FloatUse
 namespace SqlDt.C08
 open SqlDt Gen
 
@@ -152,6 +153,29 @@ theorem Timestamp.add_sub_cancel (ts i r : Int) (hts : isValidTimestamp ts) (hi 
     have : ts + i - i = ts := by omega
     rw [this]; simp [hts]
   · cases h
+
+/-! ### Fractional-day offsets (f64) -/
+
+/-- Whole days: `add_days(k as f64)` adds exactly `k` days with the exact range gate, for every |k| ≤ 100000. -/
+theorem Timestamp.addDays_whole (ts k : Int) (hk : k.natAbs ≤ 100000) :
+    Timestamp.addDays ts (F64.ofInt k) =
+      (match checkedI64 (ts + k * 86400000000) with
+       | some r => Timestamp.tryFromUsecs r
+       | none => .error .DateOutOfRange) :=
+  Lemmas.Timestamp.addDays_whole ts k hk
+
+/-- Any offset whose microsecond count `n` is exactly representable by the product `x · 86400·10^6` (halves, quarters, …
+    of a day; any whole number of microseconds below 2^53 that the product hits exactly) is added exactly. For the
+    remaining doubles the offset is `roundHalfAway(fl(x · 86400·10^6))` by definition of the model (`Timestamp.addDays`),
+    i.e. the offset rounded to the nearest microsecond up to the one rounding of the product (relative 2^-53, see
+    `C14.rounding_half_ulp`); NaN gives `InvalidNumber`, ±∞ `NumericOverflow` (`C03.addDays_no_panic`). -/
+theorem Timestamp.addDays_exact (ts n : Int) (x : F64) (hn : n.natAbs ≤ 9007199254740992)
+    (hx : F64.mul x (F64.ofInt 86400000000) = F64.ofInt n) :
+    Timestamp.addDays ts x =
+      (match checkedI64 (ts + n) with
+       | some r => Timestamp.tryFromUsecs r
+       | none => .error .DateOutOfRange) :=
+  Lemmas.Timestamp.addDays_exact ts n x hn hx
 
 example : isValidDate 0 ∧ fitsI32 5 ∧ Date.addDays 0 5 = .ok 5 ∧ Date.addDays 2932896 1 = .error .DateOutOfRange ∧
     Date.addDays 0 2147483647 = .error .DateOutOfRange := by decide
